@@ -33,7 +33,14 @@ type Spec struct {
 	InitSends   int   `json:"init_sends,omitempty"`   // self-sends issued inside the first Initialized handler
 	SpawnSends  int   `json:"spawn_sends,omitempty"`  // sends by a second goroutine while the first Initialized handler waits for it
 	Children    int   `json:"children,omitempty"`     // children spawned in Started of the first incarnation of each process
-	Ops         []Op  `json:"ops"`
+	// Split > 0: the chain is handed over in two WithMiddleware options (the first Split layers, then the
+	// rest); the configured order is the order of the options.
+	Split int `json:"split,omitempty"`
+	// SpawnCtx: "" = no WithContext option, "live" = a context that is never cancelled, "cancelled" = a
+	// context that is cancelled before Spawn is called.  The spawn context is user data
+	// (Context.Context()); none of the listed properties lets it influence the actor.
+	SpawnCtx string `json:"spawn_ctx,omitempty"`
+	Ops      []Op   `json:"ops"`
 }
 
 const (
